@@ -114,7 +114,7 @@ fn best_sequence(seq: &[Vec<T>]) -> Result<(), (String, String)> {
             }
         }
         // direct fold agrees on the objective value
-        if direct.as_ref().map(|d| d.objective().value().to_bits()) != model.map(|m| m.1) {
+        if direct.as_ref().map(|d| d.objective().value()) != model.map(|m| val(&m)) {
             return Err(("best:direct-and-component-disagree".into(), format!("after update {k}: direct {:?} component {model:?}", direct.as_ref().map(view))));
         }
     }
@@ -144,7 +144,8 @@ fn archive_sequence(seq: &[Vec<T>], k: usize, reinsertion_target: &[T]) -> Resul
         want.truncate(k);
         let mut gv: Vec<f64> = got.iter().map(val).collect();
         gv.sort_by(|a, b| a.partial_cmp(b).unwrap());
-        if gv.iter().map(|v| v.to_bits()).collect::<Vec<_>>() != want.iter().map(|v| v.to_bits()).collect::<Vec<_>>() {
+        // compared as numbers: -0.0 and +0.0 tie, either may be kept
+        if gv != want {
             let class = if gv.len() < want.len() { "too-few" } else if gv.len() > want.len() { "over-capacity" } else { "not-the-k-best" };
             return Err((format!("archive:{class}"), format!("capacity {k}, after update {step}: archive {got:?}, shown so far {shown:?}")));
         }
@@ -245,6 +246,33 @@ fn part_a(rep: &Reporter) {
             });
         }
     });
+    // signed zeros: -0.0 and +0.0 are the same objective value, so neither is "strictly better" than the other
+    {
+        let zs = [-0.0f64, 0.0, 1.0];
+        let mut zp: Vec<Vec<f64>> = vec![vec![]];
+        for a in zs {
+            zp.push(vec![a]);
+            for b in zs {
+                zp.push(vec![a, b]);
+            }
+        }
+        let nz = zp.len();
+        for idx in 0..nz * nz * nz {
+            let seq = tagify(&[&zp[idx % nz], &zp[(idx / nz) % nz], &zp[idx / nz / nz]]);
+            rep.case();
+            rep.nontrivial(hash_of(&("signed-zero", idx)));
+            if let Err((sig, msg)) = best_sequence(&seq) {
+                rep.violation(&sig, json!({"kind": "best-individual-sequence(signed zeros)", "populations": format!("{:?}", seq.iter().map(|p| p.iter().map(|t| (t.0, val(t))).collect::<Vec<_>>()).collect::<Vec<_>>()), "observed": msg}));
+            }
+            for k in [1usize, 2, 8] {
+                let target: Vec<T> = seq[0].clone();
+                if let Err((sig, msg)) = archive_sequence(&seq, k, &target) {
+                    rep.violation(&sig, json!({"kind": "elitist-archive-sequence(signed zeros)", "capacity": k, "populations": format!("{:?}", seq.iter().map(|p| p.iter().map(|t| (t.0, val(t))).collect::<Vec<_>>()).collect::<Vec<_>>()), "observed": msg}));
+                }
+            }
+        }
+        rep.count("signed_zero_sequences", (nz * nz * nz) as u64);
+    }
     // random larger sequences
     let n = rep.tier.pick(2_000usize, 1_500_000usize);
     let mut rng = SplitMix64::new(rep.seed).fork(0xC07);
@@ -360,9 +388,29 @@ impl<'r> TemplateVisitor for V<'r> {
 
 fn main() {
     let rep = Reporter::from_args("C07");
-    rep.rule("(a) all sequences of up to 3 populations of up to 3 tagged individuals over objective values {-1,0,1,+inf} (ties and duplicates included) through BestIndividualUpdate / BestIndividual::update, and (every 7th sequence x capacities {0,1,2,3,8}) through ElitistArchiveUpdate + ElitistArchiveIntoPopulation, vs reference folds (strict improvement only, tags tell which individual is held; k smallest so far as a multiset; re-insertion adds exactly the absent members); plus random longer sequences; (b) every BestIndividualUpdate observed at the step-observer hook in runs of all 21 templates (best <= every evaluated member of the current population, never worse, not replaced on a tie) and, at the end of every run, reported best == minimum value in the objective call log. distinct_nontrivial = sequences containing ties + random sequences + distinct template runs");
+    rep.rule("(a) all sequences of up to 3 populations of up to 3 tagged individuals over objective values {-1,0,1,+inf} (ties and duplicates included; plus all sequences over {-0.0,+0.0,1}: signed zeros tie) through BestIndividualUpdate / BestIndividual::update, and (every 7th sequence x capacities {0,1,2,3,8}) through ElitistArchiveUpdate + ElitistArchiveIntoPopulation, vs reference folds (strict improvement only, tags tell which individual is held; k smallest so far as a multiset; re-insertion adds exactly the absent members); plus random longer sequences; (b) every BestIndividualUpdate observed at the step-observer hook in runs of all 21 templates (best <= every evaluated member of the current population, never worse, not replaced on a tie) and, at the end of every run, reported best == minimum value in the objective call log; the same for second runs on a reused state on a changed problem instance whose values are all higher (the best-so-far memory must start afresh), and for the generic ga / es loops with replacements that drop evaluated offspring. distinct_nontrivial = sequences containing ties + random sequences + distinct template runs");
     rep.assume("objective call log of harness problems is complete; tags identify individuals");
     part_a(&rep);
+    // a second run on the state of a first one, on a changed problem instance whose values are all higher:
+    // the best reported after the second run is the minimum the second objective function returned in it
+    {
+        let mut rng = SplitMix64::new(rep.seed).fork(0xC07_7);
+        for k in 0..rep.tier.pick(400usize, 20_000usize) {
+            let o = mv::warm::warm_restart(&mut rng, k);
+            rep.case();
+            rep.nontrivial(hash_of(&("warm-restart", k)));
+            if o.failed.is_some() {
+                continue;
+            }
+            rep.count("second_runs_on_a_reused_state", 1);
+            if o.final_best.map(f64::to_bits) != o.min_evaluated_in_second_run.map(f64::to_bits) {
+                rep.violation(
+                    "second-run-on-a-reused-state:final-best-is-not-the-minimum-evaluated-value",
+                    json!({"heuristic": o.variant, "first_objective": format!("{:?}", o.first_fn), "second_objective": format!("{:?}", o.second_fn), "dimension": o.dim, "seed": o.seed, "reported_best": o.final_best, "minimum_returned_by_the_objective_function_in_the_second_run": o.min_evaluated_in_second_run}),
+                );
+            }
+        }
+    }
     let seeds = rep.tier.pick(20usize, 400usize);
     let mut cases = templates::cases(rep.quick(), rep.seed, seeds);
     // witness of the recorded known finding (see known_findings.json), always re-run
